@@ -33,13 +33,25 @@ REQUIRED_BRIDGES = {
     # pixman-region.c: one iteration of intersect_o / union_o (MERGERECT) / subtract_o (BridgesRegionO.lean)
     "C05": [_P + n for n in ["region32_intersect_o_step_eq", "region32_union_o_both_step_eq", "region32_union_o_r1_step_eq",
                              "region32_union_o_r2_step_eq", "region32_subtract_o_step_eq",
-                             "region32_subtract_o_tail_step_eq"]],
+                             "region32_subtract_o_tail_step_eq",
+                             # BridgesRegionV.lean: shortcut tests of intersect/union/subtract, pixman_op's decisions
+                             "region32_intersect_nil_or_apart_eq", "region32_subtract_nil_or_apart_eq",
+                             "region32_intersect_nar_eq", "region32_subtract_nar_eq", "region32_intersect_both_single_eq",
+                             "region32_intersect_reg2_covers_eq", "region32_intersect_reg1_covers_eq",
+                             "region32_union_reg1_covers_eq", "region32_union_reg2_covers_eq", "region32_union_nil_nar_eq",
+                             "region32_same_tests_eq", "region32_union_copy_tests_eq", "region32_find_band_step_eq", "region32_find_band_tail_step_eq",
+                             "region32_op_band_decisions_eq", "region32_op_coalesce_wanted_eq",
+                             "region32_op_tail_tests_eq"]],
     "C06": [_P + n for n in ["region32_set_extents_step_eq", "region32_set_extents_step_end",
                              "region32_coalesce_compare_step_differ", "region32_coalesce_compare_step_same",
-                             "region32_coalesce_merge_step_eq"]],
+                             "region32_coalesce_merge_step_eq",
+                             # BridgesRegionV.lean: validate's placement decision, pixman_op's band/coalesce/old_data tests
+                             "region32_validate_place_eq", "region32_find_band_step_eq", "region32_find_band_tail_step_eq", "region32_op_band_decisions_eq",
+                             "region32_op_coalesce_wanted_eq", "region32_op_tail_tests_eq"]],
     "C07": [_P + n for n in ["region32_translate_sums_eq", "region32_translate_inrange_eq", "region32_translate_outside_eq",
                              "region32_translate_clamp_extents_eq", "region32_translate_move_step_eq",
-                             "region32_translate_clamp_step_eq", "region32_translate_single_eq"]],
+                             "region32_translate_clamp_step_eq", "region32_translate_single_eq",
+                             "region32_contains_rectangle_step_eq"]],
     "C08": [_P + "pixman_fixed_to_bilinear_weight_eq", _P + "repeat_eq", _P + "bilinear_interpolation_eq"],
     # pixman-image.c: compute_image_info = C14's literal model = C09's continuation form (flag constants matched
     # against Gen/ImageFlags inside the proof)
